@@ -398,9 +398,9 @@ def y_alt(alt):
     elif k == 'numeric_enumeration':
         bc = {'size': alt['code_size']}
         if alt['code_dict'] is not None:
-            bc['value_dict'] = dict(alt['code_dict'])
+            bc['value_dict'] = {int(a): b for a, b in alt['code_dict'].items()}
         if alt['arg'] is not None:
-            d['argument'] = y_arg(alt['arg'], {'value_dict': dict(alt['arg_dict'])})
+            d['argument'] = y_arg(alt['arg'], {'value_dict': {int(a): b for a, b in alt['arg_dict'].items()}})
     elif k == 'numeric_bytecode':
         bc = {'size': alt['code_size'], 'min': alt['min'], 'max': alt['max']}
     elif k == 'address':
@@ -540,7 +540,8 @@ def c_sdict(d):
 
 
 def c_zdict(d):
-    return '[' + '; '.join(f'({C.zlit(k)}, {C.zlit(v)})' for k, v in d.items()) + ']'
+    # (keys come back as text when a case has been through a JSON replay file)
+    return '[' + '; '.join(f'({C.zlit(int(k))}, {C.zlit(int(v))})' for k, v in d.items()) + ']'
 
 
 def c_idx(ix, default):
